@@ -102,13 +102,12 @@ Qed.
 Theorem drain s :
   panicked s = false -> quiescent s -> no_receive s ->
   (forall w, w < par c -> forall i, src c w = SIn i -> cclosed (ins s i) = true) ->
-  (forall w, w < par c -> src c w <> SGen) ->
   (forall w, w < par c -> match wc (ws s w) with
                           | WCall _ _ | WSleep _ _ _ _ | WRun _ (ATok _ :: _) => False
                           | _ => True end) ->
   (forall w, w < par c -> wc (ws s w) = WDone) /\ (closer c = true -> closer_done s = true).
 Proof.
-  intros Hp [Hq Hcl] Hnr Hin Hgen Hsimple.
+  intros Hp [Hq Hcl] Hnr Hin Hsimple.
   assert (Hall : forall w, w < par c -> wc (ws s w) = WDone).
   { intros w Hw. specialize (Hsimple w Hw).
     destruct (stuck_waits s w (Hq w Hw)) as [Hd|i Hc Hs Hb Hcl'|a t Hc|eof k v rest Hc Hr Hcl' Hcn
